@@ -20,6 +20,7 @@ def companions():
     res = {
         "LocalStoreFSMC.tla": {"FsConf.tla": fsconf.module("crash_first_keep", "atomic")},
         "FsTrace.tla": {},
+        "LocalStoreFSTrace.tla": {"FsConf.tla": fsconf.module("conform_nested", "atomic")},
         "SigTrace.tla": {},
         "EvalProto.tla": {},
         "StoreCodec.tla": {"CodecConf.tla": codecconf()},
